@@ -1058,6 +1058,17 @@ def run(c):
 
     quick = c.tier == 'quick'
     J = Judge(c)
+    if getattr(c, 'replay', None):
+        # ./check C04 --replay file: re-run the recorded (shrunk) expression through the same validation
+        r = c.replay
+        try:
+            e, args = pickle.loads(base64.b64decode(r['pickled']))
+        except Exception as ex:
+            raise Infra('replay file has no usable pickled expression: %r' % ex)
+        J.run(derivative_case(c, 'replay', r.get('label', 'replay'), e, r['wrt'], args, second=False, outcome=J.outcome, of_simplified=True))
+        for k, v in sorted(J.outcome.items()): c.count(k, v)
+        c.obligation('replay', not c.violations, 'validation', 'recorded input re-validated')
+        return
     cases = []
     cases += stream_classes(c, J)
     cases += stream_special(c, J)
